@@ -12,6 +12,12 @@
 //!             by the specification along that order.
 //! * `local` — `LocalAutoResetEvent` / `LocalManualResetEvent` (boxed, embedded): single-threaded
 //!             operation histories against the same specification.
+//! * `reent` / `local-reent` — one thread; the simulator-owned waker's `wake` / `clone` / `drop`
+//!             callbacks perform whole operations on the same event (callback plan drawn by the
+//!             scenario, depth <= 2): see `reent`. Nested operations are concurrent with the
+//!             operation they run inside; the history is checked with the extended checker.
+//!             In `mt` the same seam only yields (0-4 times per callback).
+//! * `known-reent-waker-drop-under-lock` — reproduces the known finding of that name.
 //! * `aset`  — `awaiter_set::AwaiterSet` operation histories against a list model (native bulk and
 //!             a Miri sample for the intrusive pointers).
 //!
@@ -20,6 +26,7 @@
 
 mod aset;
 mod lin;
+mod reent;
 mod spec;
 mod waker;
 
@@ -36,11 +43,23 @@ use simkit::{Ctx, Rng, Scenario, Violation, check, entry};
 
 use crate::lin::{LOp, lin_ext};
 use crate::spec::{MAXW, Res, S, SOp, step};
-use crate::waker::{WakerCell, new_waker};
+use crate::reent::{CbEntry, Note, NoteKind, run_reent};
+use crate::waker::{CbKind, Hook, HookGuard, WakerCell, drop_own, new_waker};
 
 /// Keys of known findings (DESIGN §6 / known_findings.json) whose trigger the ordinary modes must
-/// not generate. None is known for C08.
-const AVOID_KNOWN: &[&str] = &[];
+/// not generate.
+///
+/// * `reent-waker-drop-under-lock` — `AwaiterSet::register` (waker replaced on re-poll) and
+///   `AwaiterSet::unregister` (cancelled wait) drop the *stored* waker while the event still holds
+///   its mutex (thread-safe events) / its `&mut AwaiterSet` out of the `UnsafeCell` (local events).
+///   A waker whose `Drop` calls back into the event self-deadlocks on the mutex, or re-enters the
+///   list code with an aliasing `&mut` and an awaiter that is half-way through the transition
+///   (local events: the waker being dropped is handed out a second time -> double release). While
+///   the key is listed the re-entrant modes do not run the actions planned for drop callbacks of
+///   stored wakers (drop callbacks of the clone a Ready poll releases still run them); mode
+///   `known-reent-waker-drop-under-lock` reproduces the defect on the local events.
+const AVOID_KNOWN: &[&str] = &["reent-waker-drop-under-lock"];
+const KEY_DROP_UNDER_LOCK: &str = "reent-waker-drop-under-lock";
 
 // ------------------------------------------------------------------------------------------------
 // Events under test
@@ -171,6 +190,19 @@ struct EvScenario {
     /// seq: which simulated thread executes its next operation, in order. Entries naming an
     /// exhausted thread are skipped; operations left over at the end run in thread order.
     order: Vec<u8>,
+    /// `reent` / `local-reent`: one thread, waker callbacks perform nested operations (`cb`).
+    #[serde(default)]
+    reent: bool,
+    /// Callback plan (re-entrant modes).
+    #[serde(default)]
+    cb: Vec<CbEntry>,
+    /// `mt`: non-zero = waker callbacks yield 0-4 times, drawn from a PRNG seeded with this and the
+    /// thread index (no nested operations there).
+    #[serde(default)]
+    cb_seed: u64,
+    /// Run the actions planned for drop callbacks of stored wakers too (`known-*` mode only).
+    #[serde(default)]
+    drop_under_lock: bool,
 }
 
 fn gen_op(rng: &mut Rng, manual: bool, slots: u8) -> Op {
@@ -244,7 +276,118 @@ fn gen_events(rng: &mut Rng, kinds: &[Kind], concurrent: bool, max_ops: usize) -
         order.extend(std::iter::repeat_n(t as u8, s.len()));
     }
     rng.shuffle(&mut order);
-    EvScenario { kind, concurrent, slots, threads, start_yields, order }
+    let cb_seed = if concurrent { rng.below(u64::MAX - 1) + 1 } else { 0 };
+    EvScenario { kind, concurrent, slots, threads, start_yields, order, reent: false, cb: Vec::new(), cb_seed, drop_under_lock: false }
+}
+
+fn gen_nested_op(rng: &mut Rng, manual: bool, slots: u8) -> Op {
+    let w: &[u32] = if manual { &[4, 4, 1, 5, 2] } else { &[4, 0, 2, 5, 2] };
+    match rng.weighted(w) {
+        0 => Op::Set,
+        1 => Op::Reset,
+        2 => Op::TryWait,
+        3 => Op::Poll(rng.below(u64::from(slots)) as u8),
+        _ => Op::Drop(rng.below(u64::from(slots)) as u8),
+    }
+}
+
+/// Re-entrant modes: one top-level script plus a callback plan. About 40 % start from a directed
+/// shape aimed at a window only a waker callback can reach; a random suffix and random plan entries
+/// follow.
+fn gen_reent(rng: &mut Rng, kinds: &[Kind]) -> EvScenario {
+    let kind = *rng.pick(kinds);
+    let manual = kind.manual();
+    let slots = 4_u8;
+    let mut script: Vec<Op> = Vec::new();
+    let mut cb: Vec<CbEntry> = Vec::new();
+    if rng.chance(2, 5) {
+        use CbKind::{Clone as C, Drop as D, Wake as W};
+        use Op::{Drop as Dr, Poll as P, Reset as R, Set as S, TryWait as T};
+        let shape = rng.below(8);
+        let (sc, plan): (Vec<Op>, Vec<(CbKind, u16, Vec<Op>)>) = match (manual, shape) {
+            // waiter of the drain re-polled / a new waiter registered after a nested reset
+            (true, 0) => (vec![P(0), P(1), S], vec![(W, 0, vec![R, P(1)])]),
+            (true, 1) => (vec![P(0), S, S], vec![(W, 0, vec![R, P(1)])]),
+            (true, 2) => (vec![P(0), P(1), S], vec![(W, 1, vec![R, P(0)])]),
+            (true, 3) => (vec![P(0), P(1), S], vec![(W, 0, vec![R, S])]),
+            (true, 4) => (vec![P(0), P(1), P(2), S], vec![(W, 0, vec![R, P(3), S]), (W, 1, vec![R, P(0)])]),
+            (true, 5) => (vec![P(0), P(1), S, R], vec![(W, 0, vec![Dr(1), R, P(1)])]),
+            (true, 6) => (vec![P(0), S, P(1)], vec![(C, 1, vec![R, P(2)]), (D, 0, vec![R])]),
+            (true, _) => (vec![P(0), P(1), S, R, S], vec![(W, 0, vec![R, P(2), P(1)]), (W, 2, vec![T])]),
+            // auto: nested operations between notify_one and the return of set / of a forwarding drop
+            (false, 0) => (vec![P(0), P(1), S], vec![(W, 0, vec![S])]),
+            (false, 1) => (vec![P(0), P(1), S, Dr(0)], vec![(W, 1, vec![S, P(2)])]),
+            (false, 2) => (vec![P(0), S], vec![(W, 0, vec![Dr(0), T])]),
+            (false, 3) => (vec![P(0), S, P(0)], vec![(C, 1, vec![S]), (D, 0, vec![S, T])]),
+            (false, 4) => (vec![P(0), P(1), S, S], vec![(W, 0, vec![P(0), P(2)]), (W, 1, vec![Dr(2), S])]),
+            (false, 5) => (vec![P(0), P(1), P(2), S, Dr(0), Dr(1)], vec![(W, 1, vec![Dr(2)]), (W, 0, vec![T, S])]),
+            (false, 6) => (vec![S, P(0), P(1)], vec![(D, 0, vec![S, P(2)]), (C, 1, vec![S])]),
+            (false, _) => (vec![P(0), S, S], vec![(W, 0, vec![P(1), S, P(0)])]),
+        };
+        script = sc;
+        cb = plan.into_iter().map(|(kind, index, actions)| CbEntry { kind, index, actions }).collect();
+    }
+    let want = rng.range_usize(3, 8);
+    while script.len() < want {
+        script.push(gen_op(rng, manual, slots));
+    }
+    let extra = rng.range_usize(if cb.is_empty() { 1 } else { 0 }, 4);
+    for _ in 0..extra {
+        let kind = match rng.weighted(&[5, 3, 2]) {
+            0 => CbKind::Wake,
+            1 => CbKind::Clone,
+            _ => CbKind::Drop,
+        };
+        let index = match kind {
+            CbKind::Wake => rng.below(4),
+            CbKind::Clone => rng.below(8),
+            CbKind::Drop => rng.below(5),
+        } as u16;
+        if cb.iter().any(|e| e.kind == kind && e.index == index) {
+            continue;
+        }
+        let n = rng.range_usize(1, 3);
+        let actions = (0..n).map(|_| gen_nested_op(rng, manual, slots)).collect();
+        cb.push(CbEntry { kind, index, actions });
+    }
+    let order = vec![0; script.len()];
+    EvScenario {
+        kind,
+        concurrent: false,
+        slots,
+        threads: vec![script.into_iter().map(|op| Step { op, yields: 0 }).collect()],
+        start_yields: vec![0],
+        order,
+        reent: true,
+        cb,
+        cb_seed: 0,
+        drop_under_lock: false,
+    }
+}
+
+/// Deterministic reproduction of `reent-waker-drop-under-lock` on a local event: the waker stored
+/// by the first poll is dropped by the second poll (replaced inside `AwaiterSet::register`) or by
+/// the cancellation (`AwaiterSet::unregister`); its drop callback calls `set()`. On the thread-safe
+/// events the same scenario self-deadlocks on the event's mutex (not generated: a hang).
+fn gen_known_drop_under_lock(rng: &mut Rng) -> EvScenario {
+    let kind = *rng.pick(LOCAL_KINDS);
+    // (The cancellation path - Poll(0), Poll(1), Drop(0) - re-enters with an aliasing `&mut` too, but
+    // `unregister` has already unlinked the awaiter and taken the waker: no native symptom.)
+    let script = vec![Op::Poll(0), Op::Poll(0)];
+    let order = vec![0; script.len()];
+    EvScenario {
+        kind,
+        concurrent: false,
+        slots: 4,
+        threads: vec![script.into_iter().map(|op| Step { op, yields: 0 }).collect()],
+        start_yields: vec![0],
+        order,
+        reent: true,
+        // Drop callback #0 is the first drop the library performs: the stored waker of slot 0.
+        cb: vec![CbEntry { kind: CbKind::Drop, index: 0, actions: vec![Op::Set] }],
+        cb_seed: 0,
+        drop_under_lock: true,
+    }
 }
 
 // ------------------------------------------------------------------------------------------------
@@ -306,6 +449,17 @@ struct Rec {
     res: Res,
     /// The waker handed to this poll.
     cell: Option<Arc<WakerCell>>,
+    /// Re-entrant modes: nesting depth (0 = top level), the callback kind it ran in, and the record
+    /// index of the operation it ran inside.
+    depth: u8,
+    via: Option<CbKind>,
+    parent: Option<usize>,
+}
+
+impl Rec {
+    fn top(thread: usize, inv: u64, ret: u64, op: Op, res: Res, cell: Option<Arc<WakerCell>>) -> Self {
+        Rec { thread, inv, ret, op, res, cell, depth: 0, via: None, parent: None }
+    }
 }
 
 fn tick(stamp: &AtomicU64) -> u64 {
@@ -334,19 +488,19 @@ fn exec_op<E: Ev>(
             let inv = tick(stamp);
             ev.set();
             let ret = tick(stamp);
-            out.push(Rec { thread, inv, ret, op, res: Res::Unit, cell: None });
+            out.push(Rec::top(thread, inv, ret, op, Res::Unit, None));
         }
         Op::Reset => {
             let inv = tick(stamp);
             ev.reset();
             let ret = tick(stamp);
-            out.push(Rec { thread, inv, ret, op, res: Res::Unit, cell: None });
+            out.push(Rec::top(thread, inv, ret, op, Res::Unit, None));
         }
         Op::TryWait => {
             let inv = tick(stamp);
             let r = ev.try_wait();
             let ret = tick(stamp);
-            out.push(Rec { thread, inv, ret, op, res: Res::Bool(r), cell: None });
+            out.push(Rec::top(thread, inv, ret, op, Res::Bool(r), None));
         }
         Op::Poll(k) => {
             let Some(slot) = slots.get_mut(k as usize) else { return };
@@ -362,7 +516,7 @@ fn exec_op<E: Ev>(
             }
             let r = slot.pinned().poll(&mut cx);
             let ret = tick(stamp);
-            drop(waker);
+            drop_own(waker);
             let res = match r {
                 Poll::Ready(()) => {
                     slot.completed = true;
@@ -370,7 +524,7 @@ fn exec_op<E: Ev>(
                 }
                 Poll::Pending => Res::Pending,
             };
-            out.push(Rec { thread, inv, ret, op: Op::Poll(base + k), res, cell: Some(cell) });
+            out.push(Rec::top(thread, inv, ret, Op::Poll(base + k), res, Some(cell)));
         }
         Op::Drop(k) => {
             let Some(slot) = slots.get_mut(k as usize) else { return };
@@ -380,7 +534,7 @@ fn exec_op<E: Ev>(
             let inv = tick(stamp);
             slot.drop_future();
             let ret = tick(stamp);
-            out.push(Rec { thread, inv, ret, op: Op::Drop(base + k), res: Res::Unit, cell: None });
+            out.push(Rec::top(thread, inv, ret, Op::Drop(base + k), Res::Unit, None));
         }
     }
 }
@@ -428,9 +582,18 @@ where
         let ev = ev.clone();
         let slots_per = sc.slots;
         let start = sc.start_yields.get(t).copied().unwrap_or(0);
+        let cb_seed = sc.cb_seed;
         handles.push(std::thread::spawn(move || {
             let mut recs = Vec::new();
             let mut slots = new_slots::<E::Fut>(usize::from(slots_per));
+            // Light version of the callback seam: every waker callback this thread runs (clone in
+            // its polls, wake of other threads' waiters in its set / forwarding drop, drop of
+            // replaced / cancelled wakers - the latter inside the library's critical section)
+            // yields 0-4 times.
+            let yield_rng = std::cell::RefCell::new(Rng::new(cb_seed ^ (t as u64 + 1).wrapping_mul(0x9E37_79B9_7F4A_7C15)));
+            let _guard = HookGuard::install(
+                (cb_seed != 0).then(|| Hook { data: (&raw const yield_rng).cast::<()>(), f: yield_hook }),
+            );
             shared.gate.wait();
             yields(start);
             for step in script {
@@ -452,6 +615,14 @@ where
     let mut views: Vec<&mut [Slot<E::Fut>]> = all_slots.iter_mut().map(Vec::as_mut_slice).collect();
     drain(ev, &mut views, sc.slots, sc.threads.len(), &shared.stamp, &mut recs);
     recs
+}
+
+unsafe fn yield_hook(data: *const (), _kind: CbKind, _cell: &WakerCell) {
+    // SAFETY: `data` is the RefCell<Rng> on the stack of the script thread that installed the hook;
+    // the hook is thread-local and uninstalled before that frame ends.
+    let rng = unsafe { &*data.cast::<std::cell::RefCell<Rng>>() };
+    let n = rng.borrow_mut().below(5) as u8;
+    yields(n);
 }
 
 fn run_seq<E: Ev>(sc: &EvScenario, ev: &E) -> Vec<Rec> {
@@ -493,7 +664,11 @@ fn fmt_history(recs: &[&Rec], woken: &[bool]) -> String {
         use std::fmt::Write as _;
         let _ = write!(
             s,
-            "[t{} {}..{} {:?} -> {:?}{}] ",
+            "[{}t{} {}..{} {:?} -> {:?}{}] ",
+            match (r.depth, r.via) {
+                (0, _) | (_, None) => String::new(),
+                (d, Some(v)) => format!("{}{}: ", ">".repeat(usize::from(d)), v.name()),
+            },
             r.thread,
             r.inv,
             r.ret,
@@ -506,7 +681,7 @@ fn fmt_history(recs: &[&Rec], woken: &[bool]) -> String {
 }
 
 /// Checks the recorded history and emits the event log, probes and the non-triviality verdict.
-fn judge(sc: &EvScenario, recs: &[Rec], ctx: &mut Ctx) -> Result<bool, Violation> {
+fn judge(sc: &EvScenario, recs: &[Rec], notes: &[Note], ctx: &mut Ctx) -> Result<bool, Violation> {
     let manual = sc.kind.manual();
     let nthreads = sc.threads.len();
     check!(
@@ -522,9 +697,21 @@ fn judge(sc: &EvScenario, recs: &[Rec], ctx: &mut Ctx) -> Result<bool, Violation
         evs.push((r.inv, 0, i, true));
         evs.push((r.ret, 0, i, false));
     }
+    for (i, n) in notes.iter().enumerate() {
+        evs.push((n.at, 1, i, false));
+    }
     evs.sort_unstable();
-    ctx.event(sc.kind.code() ^ 0xC08, || format!("cfg: {:?} threads={} concurrent={}", sc.kind, nthreads, sc.concurrent));
-    for (_, _, i, is_inv) in &evs {
+    ctx.event(sc.kind.code() ^ 0xC08, || format!("cfg: {:?} threads={} concurrent={} reent={}", sc.kind, nthreads, sc.concurrent, sc.reent));
+    for (_, tag, i, is_inv) in &evs {
+        if *tag == 1 {
+            let n = &notes[*i];
+            ctx.event(0xEE00 | (n.what as u64) << 4 | n.via.idx() as u64, || format!("{:?} in {} callback: {:?}", n.what, n.via.name(), n.op));
+            ctx.probe(match n.what {
+                NoteKind::SkippedBusy => "nested-op-skipped-busy",
+                NoteKind::SuppressedKnown => "drop-callback-of-stored-waker:actions-suppressed(known)",
+            });
+            continue;
+        }
         let r = &recs[*i];
         let opcode = match r.op {
             Op::Set => 1,
@@ -540,12 +727,15 @@ fn judge(sc: &EvScenario, recs: &[Rec], ctx: &mut Ctx) -> Result<bool, Violation
             Res::Ready => 3,
             Res::Pending => 4,
         };
-        let code = (r.thread as u64) << 16 | opcode << 8 | if *is_inv { 0xFF } else { rescode };
+        let nest = u64::from(r.depth) << 24 | r.via.map_or(0, |v| v.idx() as u64 + 1) << 28;
+        let code = nest | (r.thread as u64) << 16 | opcode << 8 | if *is_inv { 0xFF } else { rescode };
         ctx.event(code, || {
+            let pad = "  ".repeat(usize::from(r.depth));
+            let via = r.via.map_or(String::new(), |v| format!(" [in {} callback]", v.name()));
             if *is_inv {
-                format!("t{}: {:?} invoked", r.thread, r.op)
+                format!("{pad}t{}: {:?} invoked{via}", r.thread, r.op)
             } else {
-                format!("t{}: {:?} -> {:?}", r.thread, r.op, r.res)
+                format!("{pad}t{}: {:?} -> {:?}", r.thread, r.op, r.res)
             }
         });
     }
@@ -564,7 +754,19 @@ fn judge(sc: &EvScenario, recs: &[Rec], ctx: &mut Ctx) -> Result<bool, Violation
         if let Some(c) = &r.cell {
             ctx.event(u64::from(woken[i]), || format!("q: waker of t{} {:?}@{} woken={}", r.thread, r.op, r.inv, woken[i]));
             // Waker accounting: the library dropped (or consumed by wake) every clone it took.
-            let alive = Arc::strong_count(c) - 1;
+            check!(
+                !c.over_released(),
+                "waker-over-released",
+                "{:?}: a waker made for {:?}@{} was released more often than it was created/cloned (clones {}, drops {}, wakes {}): {}",
+                sc.kind,
+                r.op,
+                r.inv,
+                c.clones.load(Ordering::Relaxed),
+                c.drops.load(Ordering::Relaxed),
+                c.wakes.load(Ordering::Relaxed),
+                fmt_history(&order_by_inv, &woken)
+            );
+            let alive = c.alive();
             check!(
                 alive == 0,
                 "waker-leaked",
@@ -588,12 +790,41 @@ fn judge(sc: &EvScenario, recs: &[Rec], ctx: &mut Ctx) -> Result<bool, Violation
     let mut last_of_thread: Vec<Option<usize>> = vec![None; nthreads + 1];
     let mut set_id = 0_u8;
     let mut split_sets = false;
+    let mut ever_pending = [false; MAXW];
+    // Re-entrant modes: `recs` is in invocation order and `parent` links a nested operation to the
+    // operation it ran inside. Everything up to the response of the last operation that had
+    // nested operations inside is searched (a nested operation is concurrent with its ancestors:
+    // plain interval order, no program-order predecessor); what follows is a fixed sequence. A
+    // manual `set` with nested operations inside is three steps (both the thread-safe and the local
+    // event open the gate first and release the waiters one by one, waking in between).
+    let has_inner: Vec<bool> = if sc.reent {
+        let mut v = vec![false; recs.len()];
+        for r in recs {
+            if let Some(p) = r.parent {
+                v[p] = true;
+            }
+        }
+        v
+    } else {
+        Vec::new()
+    };
+    let reent_cut = recs.iter().enumerate().filter(|(i, _)| sc.reent && has_inner[*i]).map(|(_, r)| r.ret).max().unwrap_or(0);
     for (i, r) in order_by_inv.iter().enumerate() {
-        let concurrent_phase = sc.concurrent && r.thread < nthreads;
+        let concurrent_phase = if sc.reent { r.inv <= reent_cut } else { sc.concurrent && r.thread < nthreads };
+        let split_this = if sc.reent { has_inner[i] } else { true };
+        let reent = sc.reent;
         let mut push = |op: SOp, res: Res, weak: bool| {
             if !concurrent_phase {
                 tail.push((op, res));
                 tail_stamps.push((r.inv, r.ret));
+                return;
+            }
+            if reent {
+                let prev = match op {
+                    SOp::SetMark(_) | SOp::SetDone(_) => Some(conc.len() - 1),
+                    _ => None,
+                };
+                conc.push(LOp { thread: 0, inv: r.inv, ret: r.ret, inv_eff: r.inv, prev, op, res });
                 return;
             }
             let prev = last_of_thread[r.thread];
@@ -606,7 +837,7 @@ fn judge(sc: &EvScenario, recs: &[Rec], ctx: &mut Ctx) -> Result<bool, Violation
             last_of_thread[r.thread] = Some(conc.len() - 1);
         };
         match r.op {
-            Op::Set if manual && concurrent_phase => {
+            Op::Set if manual && concurrent_phase && split_this => {
                 let id = set_id;
                 set_id += 1;
                 split_sets = true;
@@ -618,8 +849,20 @@ fn judge(sc: &EvScenario, recs: &[Rec], ctx: &mut Ctx) -> Result<bool, Violation
             Op::Set => push(SOp::Set, Res::Unit, false),
             Op::Reset => push(SOp::Reset, Res::Unit, false),
             Op::TryWait => push(SOp::TryWait, r.res, manual),
-            Op::Poll(w) => push(SOp::Poll { w, woken: woken[i] }, r.res, manual && r.res == Res::Ready),
-            Op::Drop(w) => push(SOp::Drop { w }, Res::Unit, false),
+            Op::Poll(w) => {
+                if r.res == Res::Pending {
+                    ever_pending[usize::from(w)] = true;
+                }
+                push(SOp::Poll { w, woken: woken[i] }, r.res, manual && r.res == Res::Ready);
+            }
+            Op::Drop(w) => {
+                // Dropping a wait future that never returned Pending (never registered) performs
+                // no access to shared state at all (`drop_wait` returns after reading the future's
+                // own awaiter): nothing orders it against other threads' operations, so it must not
+                // pin the stale-load operations that follow it in program order to its stamp.
+                let never_registered = !std::mem::replace(&mut ever_pending[usize::from(w)], false);
+                push(SOp::Drop { w }, Res::Unit, never_registered);
+            }
         }
     }
 
@@ -633,7 +876,9 @@ fn judge(sc: &EvScenario, recs: &[Rec], ctx: &mut Ctx) -> Result<bool, Violation
 
     // Native runs cross-check the extended checker against simkit's reference checker whenever
     // the history needs none of the extensions.
-    if cfg!(not(miri)) && sc.concurrent && !split_sets && conc.len() + tail.len() <= 64 {
+    check!(conc.len() < 64, "harness-scenario-too-large", "{} searched operations", conc.len());
+    let cross_check = if sc.reent { cfg!(debug_assertions) && !conc.is_empty() } else { sc.concurrent };
+    if cfg!(not(miri)) && cross_check && !split_sets && conc.len() + tail.len() <= 64 {
         let mut h: Vec<HistOp<SOp, Res>> = conc
             .iter()
             .map(|l| HistOp { thread: l.thread, invoke: l.inv, ret: Some(l.ret), op: l.op.clone(), result: Some(l.res) })
@@ -662,7 +907,7 @@ fn judge(sc: &EvScenario, recs: &[Rec], ctx: &mut Ctx) -> Result<bool, Violation
         Ok(w) => w,
         Err(depth) => {
             let hist = fmt_history(&order_by_inv, &woken);
-            let at = if sc.concurrent { String::new() } else { format!(" (first operation the specification rejects: #{depth} in execution order)") };
+            let at = if sc.concurrent || sc.reent { String::new() } else { format!(" (first operation the specification rejects: #{depth} in execution order)") };
             // Would the history be explained if released waiters did not have to be woken?
             if lin_ext(init, &conc, &tail, &lenient_step).is_ok() {
                 return Err(Violation::new(
@@ -670,7 +915,7 @@ fn judge(sc: &EvScenario, recs: &[Rec], ctx: &mut Ctx) -> Result<bool, Violation
                     format!("{:?}: the history is only explained by releasing a waiter whose latest waker was never invoked{at}: {hist}", sc.kind),
                 ));
             }
-            let class = match (sc.concurrent, manual) {
+            let class = match (sc.concurrent || sc.reent, manual) {
                 (true, false) => "not-linearizable:auto",
                 (true, true) => "not-linearizable:manual",
                 (false, false) => "spec-mismatch:auto",
@@ -741,6 +986,48 @@ fn judge(sc: &EvScenario, recs: &[Rec], ctx: &mut Ctx) -> Result<bool, Violation
         }
     }
 
+    if sc.reent {
+        let ev_kind = if manual { "manual" } else { "auto" };
+        let mut nested = 0;
+        for r in recs {
+            let Some(via) = r.via else { continue };
+            nested += 1;
+            let opn = match r.op {
+                Op::Set => "set",
+                Op::Reset => "reset",
+                Op::TryWait => "try_wait",
+                Op::Poll(_) => "poll",
+                Op::Drop(_) => "drop",
+            };
+            ctx.probe(&format!("cb:{}:{}:{}{}", via.name(), opn, if sc.kind.local() { "local-" } else { "" }, ev_kind));
+            if r.depth >= 2 {
+                ctx.probe("nested-depth-2");
+            }
+            // Ancestors of this nested operation.
+            let mut inside_set = false;
+            let mut a = r.parent;
+            while let Some(p) = a {
+                inside_set |= recs[p].op == Op::Set;
+                a = recs[p].parent;
+            }
+            if inside_set && r.op == Op::Set {
+                ctx.probe("nested-set-inside-set");
+            }
+            if inside_set && r.op == Op::Reset && manual {
+                ctx.probe("nested-reset-inside-set-drain");
+            }
+            if let Some(p) = r.parent {
+                if matches!(recs[p].op, Op::Drop(_)) && via == CbKind::Wake {
+                    ctx.probe("auto:nested-op-inside-forwarding-drop");
+                }
+            }
+        }
+        if nested > 0 {
+            ctx.probe("nested-op-executed");
+        }
+        ctx.probe_n("lin:search-nodes", witness.visited);
+        return Ok(nested >= 1 && sets >= 1);
+    }
     if !sc.concurrent {
         return Ok(sets >= 1 && registrations >= 1);
     }
@@ -777,48 +1064,58 @@ fn judge(sc: &EvScenario, recs: &[Rec], ctx: &mut Ctx) -> Result<bool, Violation
     Ok(overlapped >= 1 && has_set)
 }
 
+fn run_single<E: Ev>(sc: &EvScenario, ev: &E) -> (Vec<Rec>, Vec<Note>) {
+    if !sc.reent {
+        return (run_seq(sc, ev), Vec::new());
+    }
+    let script: Vec<Op> = sc.threads.first().map(|t| t.iter().map(|s| s.op).collect()).unwrap_or_default();
+    let avoid = AVOID_KNOWN.contains(&KEY_DROP_UNDER_LOCK) && !sc.drop_under_lock;
+    let out = run_reent(ev, sc.kind.manual(), usize::from(sc.slots), &script, &sc.cb, avoid);
+    (out.recs, out.notes)
+}
+
 fn run_events(sc: &EvScenario, ctx: &mut Ctx) -> Result<bool, Violation> {
-    let recs = match sc.kind {
+    let (recs, notes) = match sc.kind {
         Kind::AutoBoxed => {
             let ev = events::AutoResetEvent::boxed();
-            if sc.concurrent { run_mt(sc, &ev) } else { run_seq(sc, &ev) }
+            if sc.concurrent { (run_mt(sc, &ev), Vec::new()) } else { run_single(sc, &ev) }
         }
         Kind::AutoEmbedded => {
             let place = Box::pin(events::EmbeddedAutoResetEvent::new());
             // SAFETY: the container outlives the handle, its copies and every wait future: all
             // threads are joined and all futures dropped inside run_mt / run_seq.
             let ev = unsafe { events::AutoResetEvent::embedded(place.as_ref()) };
-            let r = if sc.concurrent { run_mt(sc, &ev) } else { run_seq(sc, &ev) };
+            let r = if sc.concurrent { (run_mt(sc, &ev), Vec::new()) } else { run_single(sc, &ev) };
             drop(place);
             r
         }
         Kind::ManualBoxed => {
             let ev = events::ManualResetEvent::boxed();
-            if sc.concurrent { run_mt(sc, &ev) } else { run_seq(sc, &ev) }
+            if sc.concurrent { (run_mt(sc, &ev), Vec::new()) } else { run_single(sc, &ev) }
         }
         Kind::ManualEmbedded => {
             let place = Box::pin(events::EmbeddedManualResetEvent::new());
             // SAFETY: as above.
             let ev = unsafe { events::ManualResetEvent::embedded(place.as_ref()) };
-            let r = if sc.concurrent { run_mt(sc, &ev) } else { run_seq(sc, &ev) };
+            let r = if sc.concurrent { (run_mt(sc, &ev), Vec::new()) } else { run_single(sc, &ev) };
             drop(place);
             r
         }
-        Kind::LocalAutoBoxed => run_seq(sc, &events::LocalAutoResetEvent::boxed()),
+        Kind::LocalAutoBoxed => run_single(sc, &events::LocalAutoResetEvent::boxed()),
         Kind::LocalAutoEmbedded => {
             let place = Box::pin(events::EmbeddedLocalAutoResetEvent::new());
             // SAFETY: as above (single thread).
             let ev = unsafe { events::LocalAutoResetEvent::embedded(place.as_ref()) };
-            let r = run_seq(sc, &ev);
+            let r = run_single(sc, &ev);
             drop(place);
             r
         }
-        Kind::LocalManualBoxed => run_seq(sc, &events::LocalManualResetEvent::boxed()),
+        Kind::LocalManualBoxed => run_single(sc, &events::LocalManualResetEvent::boxed()),
         Kind::LocalManualEmbedded => {
             let place = Box::pin(events::EmbeddedLocalManualResetEvent::new());
             // SAFETY: as above (single thread).
             let ev = unsafe { events::LocalManualResetEvent::embedded(place.as_ref()) };
-            let r = run_seq(sc, &ev);
+            let r = run_single(sc, &ev);
             drop(place);
             r
         }
@@ -833,7 +1130,7 @@ fn run_events(sc: &EvScenario, ctx: &mut Ctx) -> Result<bool, Violation> {
         Kind::LocalManualBoxed => "kind:local-manual-boxed",
         Kind::LocalManualEmbedded => "kind:local-manual-embedded",
     });
-    judge(sc, &recs, ctx)
+    judge(sc, &recs, &notes, ctx)
 }
 
 const MT_KINDS: &[Kind] = &[Kind::AutoBoxed, Kind::AutoEmbedded, Kind::ManualBoxed, Kind::ManualEmbedded];
@@ -846,12 +1143,18 @@ impl Scenario for EvScenario {
         match mode {
             "mt" => gen_events(rng, MT_KINDS, true, 4),
             "seq" => gen_events(rng, MT_KINDS, false, 8),
+            "reent" => gen_reent(rng, MT_KINDS),
+            "local-reent" => gen_reent(rng, LOCAL_KINDS),
+            "known-reent-waker-drop-under-lock" => gen_known_drop_under_lock(rng),
             "local" => gen_events(rng, LOCAL_KINDS, false, 30),
             other => panic!("unknown mode {other}"),
         }
     }
 
     fn run(&self, ctx: &mut Ctx) -> Result<bool, Violation> {
+        if self.reent && (self.concurrent || self.threads.len() > 1) {
+            return Err(Violation::new("harness-bad-scenario", "re-entrant modes run on one thread"));
+        }
         if self.kind.local() && (self.concurrent || self.threads.len() != 1) {
             return Err(Violation::new("harness-bad-scenario", "local events run on one thread"));
         }
@@ -887,6 +1190,20 @@ impl Scenario for EvScenario {
                 out.push(s);
             }
         }
+        for i in 0..self.cb.len() {
+            let mut s = self.clone();
+            s.cb.remove(i);
+            out.push(s);
+        }
+        for i in 0..self.cb.len() {
+            for j in 0..self.cb[i].actions.len() {
+                if self.cb[i].actions.len() > 1 {
+                    let mut s = self.clone();
+                    s.cb[i].actions.remove(j);
+                    out.push(s);
+                }
+            }
+        }
         if self.kind.embedded() {
             let mut s = self.clone();
             s.kind = match self.kind {
@@ -920,7 +1237,8 @@ impl Scenario for EvScenario {
         let ops: usize = self.threads.iter().map(Vec::len).sum();
         let y: usize = self.threads.iter().flatten().map(|s| usize::from(s.yields)).sum::<usize>()
             + self.start_yields.iter().map(|y| usize::from(*y)).sum::<usize>();
-        ops * 16 + self.threads.len() * 8 + y + if self.kind.embedded() { 3 } else { 0 }
+        let cb: usize = self.cb.iter().map(|e| 8 + 16 * e.actions.len()).sum();
+        ops * 16 + self.threads.len() * 8 + y + cb + if self.kind.embedded() { 3 } else { 0 }
     }
 }
 
@@ -931,6 +1249,9 @@ fn main() {
             entry::<EvScenario>("C08", "mt", "2-3 real threads on one thread-safe auto/manual reset event (boxed, embedded); linearizability of the stamped history"),
             entry::<EvScenario>("C08", "seq", "the same scripts in an op-granular total order on one thread; sequential specification"),
             entry::<EvScenario>("C08", "local", "LocalAutoResetEvent / LocalManualResetEvent (boxed, embedded) single-threaded histories"),
+            entry::<EvScenario>("C08", "reent", "thread-safe events on one thread; waker callbacks (wake / clone / drop) perform nested set / reset / try_wait / poll / drop on the same event (depth <= 2); linearizability with nested operations concurrent to their outer operation"),
+            entry::<EvScenario>("C08", "local-reent", "the same for LocalAutoResetEvent / LocalManualResetEvent (re-entrancy is their only form of interleaving)"),
+            entry::<EvScenario>("C08", "known-reent-waker-drop-under-lock", "known finding: a stored waker is dropped inside the event's critical section; a re-entrant Drop re-enters the waiter list (local events: waker released twice)"),
             entry::<aset::AsetScenario>("C08", "aset", "awaiter_set::AwaiterSet operation histories against a list model"),
         ],
     )
